@@ -86,7 +86,7 @@ func normalizeSymbolicLinkAndEnsurePortable(path, target string) (string, error)
 	pathDepth := strings.Count(path, "/")
 	for _, component := range strings.Split(target, "/") {
 		// Update the depth.
-		if component == "." {
+		if component == "." || component == "" {
 			// No change to depth.
 		} else if component == ".." {
 			pathDepth--
